@@ -848,7 +848,15 @@ class Exec:
 
     def ev_Name(self, e, fr):
         if e.id in fr.env:
-            return fr.env[e.id]
+            v = fr.env[e.id]
+            if isinstance(v, Ite) and (v.a is None or v.b is None):
+                # an optional value (`x = f(); if x is None: return ...; use(x)`): once the path excludes one alternative the
+                # local simply holds the other one
+                if not self.pv.feasible(list(fr.pc) + [zbool(v.c)]):
+                    v = fr.env[e.id] = v.b
+                elif not self.pv.feasible(list(fr.pc) + [z3.Not(zbool(v.c))]):
+                    v = fr.env[e.id] = v.a
+            return v
         if e.id in self.spec.globals:
             return self.spec.globals[e.id]
         if e.id in BUILTINS:
@@ -872,6 +880,11 @@ class Exec:
         if isinstance(base, (Ref, Seq, tuple, SetVal, str, NameStr, Term)):
             return ("method", base, attr)
         if isinstance(base, Ite):
+            # a conditional value one of whose alternatives the path excludes (`x = f(); if x is None: return; x.attr`)
+            if not self.pv.feasible(list(fr.pc) + [zbool(base.c)]):
+                return self.getattr(base.b, attr, fr, node)
+            if not self.pv.feasible(list(fr.pc) + [z3.Not(zbool(base.c))]):
+                return self.getattr(base.a, attr, fr, node)
             return ite(base.c, self.getattr(base.a, attr, fr, node), self.getattr(base.b, attr, fr, node))
         raise Unsupported(f"attribute {attr} of {base!r}")
 
